@@ -1,7 +1,7 @@
-From Gv Require Import lib.Bytes lib.Gql C05.Lex C05.Parse C05.Limits C05.Print C05.Spec.
+From Gv Require Import lib.Bytes lib.Gql C05.Lex C05.Parse C05.Limits C05.Print C05.Spec C05.Tokens.
 From Coq Require Import ZArith.
 Require Import ExtrOcamlBasic.
 Extraction Language OCaml.
 Extraction "model.ml" tokenize kind_code tok_lit lex parse_bytes tokenize_limits print_doc
   doc_depth doc_fields limits_ok_b ranges_ok_b roundtrip_ok_b string_stable_b description_stable_b
-  doc_strings_stable_b doc_printable_b Z.add Nat.add.
+  doc_strings_stable_b lex_print_ok_b wf_doc Z.add Nat.add.
